@@ -175,7 +175,7 @@ Definition cf (t : status) : Prop := t = Completed \/ t = Failed.
 (* what the invariant needs to know about the crash repair of image I *)
 Record repair_sound : Prop := {
   rs_block : forall fl b, block_of sh b <> None -> is_terminal (ist I (OBlock b)) = true -> is_terminal (blk_st fl b) = true;
-  rs_seq : forall fl b q, block_of sh b <> None -> is_terminal (blk_st fl b) = false -> ~ In (b, q) resumed ->
+  rs_seq : forall fl b q, seq_of sh b q <> None -> is_terminal (blk_st fl b) = false -> ~ In (b, q) resumed ->
              ~ cf (seq_st0 b q) -> open_from b q 0;
   rs_resumed : forall b q, In (b, q) resumed ->
                  ist I (OBlock b) = Running /\ seq_of sh b q <> None /\ open_from b q (first_open pl b q) }.
@@ -217,7 +217,7 @@ Record Inv (r : rst) : Prop := {
             /\ (forall b q, In (b, q) resumed -> pending r b q \/ cf (mem_st r (OSeq b q)));
   i_run : r_ph r = RRun ->
             (forall b, block_of sh b <> None -> is_terminal (ist I (OBlock b)) = true -> is_terminal (mem_st r (OBlock b)) = true)
-            /\ (forall b q, block_of sh b <> None -> is_terminal (mem_st r (OBlock b)) = false ->
+            /\ (forall b q, seq_of sh b q <> None -> is_terminal (mem_st r (OBlock b)) = false ->
                   ~ cf (mem_st r (OSeq b q)) -> open_from b q 0)
             /\ (forall b, in_blocks r b -> b_ph (s_b (r_s r)) = BEnter ->
                   is_terminal (mem_st r (OBlock b)) = false /\ b_cause (s_b (r_s r)) = false) }.
@@ -810,7 +810,9 @@ Proof.
     + intros todo Ht. discriminate.
     + intros _. split; [|split].
       * intros b0 Hb Ht. rewrite Hmg, Hmb by exact Hb. eapply (rs_block RS); eauto.
-      * intros b0 q Hb Ht Hc. rewrite Hmg in Ht, Hc. rewrite Hmb in Ht by exact Hb. rewrite Hms in Hc.
+      * intros b0 q Hsq Ht Hc. rewrite Hmg in Ht, Hc.
+        assert (Hb : block_of sh b0 <> None) by (unfold seq_of in Hsq; destruct (block_of sh b0); [discriminate|contradiction]).
+        rewrite Hmb in Ht by exact Hb. rewrite Hms in Hc.
         destruct (in_dec pair_dec (b0, q) resumed) as [Hin|Hnin].
         -- destruct (Hres _ _ Hin) as [(qs' & [] & _)|Hcf]. contradiction.
         -- rewrite Hnon in Hc by exact Hnin. eapply (rs_seq RS); eauto.
@@ -860,10 +862,11 @@ Proof.
 Qed.
 
 Lemma seq_init_nth m cb n q x :
-  nth_error (map (seq_init m cb) (seq 0 n)) q = Some x -> x = seq_init m cb q.
+  nth_error (map (seq_init m cb) (seq 0 n)) q = Some x -> x = seq_init m cb q /\ q < n.
 Proof.
   intro H. assert (Hq : q < n).
   { apply nth_error_some_lt in H. now rewrite map_length, seq_length in H. }
+  split; [|exact Hq].
   rewrite nth_error_map in H.
   assert (Hs : nth_error (seq 0 n) q = Some q).
   { rewrite nth_error_nth' with (d := 0) by (now rewrite seq_length). now rewrite seq_nth. }
@@ -885,9 +888,11 @@ Proof.
     specialize (H1 cb' Hbo Et). unfold mem_st in H1. congruence.
   - intros b q x Hi Hx. destruct (Hin _ Hi) as [-> Hbo]. specialize (Hnt Hbo).
     unfold seqs_of in Hx. simpl in Hx. destruct (block_of sh cb') as [bs|] eqn:Eb; [|contradiction].
-    simpl in Hx. apply seq_init_nth in Hx. subst x. unfold seq_init.
+    simpl in Hx. apply seq_init_nth in Hx as [-> Hlt]. unfold seq_init.
+    assert (Hsq : seq_of sh cb' q <> None).
+    { unfold seq_of. rewrite Eb. apply nth_error_Some. exact Hlt. }
     destruct (mst (mget r) (OSeq cb' q)) eqn:Est; simpl; try exact Logic.I; rewrite Hrun;
-      (apply H2; [rewrite Eb; discriminate|exact Hnt|]); unfold mem_st; rewrite Est; intros [E|E]; discriminate.
+      (apply H2; [exact Hsq|exact Hnt|]); unfold mem_st; rewrite Est; intros [E|E]; discriminate.
   - intros todo Ht. congruence.
   - intros _. split; [exact H1|]. split; [exact H2|].
     intros b Hi Hbe. destruct (Hin _ Hi) as [-> Hbo]. split; [exact (Hnt Hbo)|].
